@@ -8,7 +8,7 @@ from . import common
 from .common import call, RAISED
 
 CAP = {'quick': 600, 'thorough': 1500}
-BIGSEED_CAP = 2600
+BIGSEED_CAP = 4800
 
 META = {
     'rule': ('cases: the standard context stream. Per lattice: upset() and downset() of every '
@@ -184,7 +184,7 @@ def setup(concepts, spec):
 
 
 def bigseed_cases(tier):
-    for n in ([10] if tier == 'quick' else [10, 11]):
+    for n in ([12] if tier == 'quick' else [11, 12]):
         full = (1 << n) - 1
         yield dict(gen.case(f'BIGSEEDS:contranominal{n}', [full & ~(1 << i) for i in range(n)], n, 'rev'), bigseeds=True)
 
@@ -206,10 +206,17 @@ def run_bigseeds(concepts, case, spec):
         seeds = rng.sample(members, min(size, len(members)))
         call(list, lat.upset_union(seeds))
         call(list, lat.downset_union(seeds))
-    mid = [c for c in members if len(c.extent) == sh.n // 2]
-    if len(mid) > 120:
-        call(list, lat.upset_union(mid[:1100] + members[:5]))
-        call(list, lat.downset_union(mid[:1100] + members[-5:]))
+    # whole layers of the Boolean lattice: > 1 000 pairwise distinct seeds, many of them incomparable,
+    # whose union of up/downsets is far from everything
+    for lo, hi in ((sh.n // 2, sh.n // 2 + 1), (sh.n // 2 - 1, sh.n // 2), (sh.n // 2 + 1, sh.n // 2 + 2)):
+        layer = [c for c in members if lo <= len(c.extent) <= hi]
+        rng.shuffle(layer)
+        if len(layer) > 1000:
+            COL.count('seed_sets_over_1000_incomparable')
+            call(list, lat.upset_union(layer))
+            call(list, lat.downset_union(layer))
+            call(list, lat.upset_union(layer[:1003]))
+            call(list, lat.downset_union(layer[:1003]))
 
 
 def cases(tier, seed, spec):
